@@ -8,8 +8,60 @@ import vlib
 G_BUILDS = {}
 
 
+def _r_worker(job):
+    """kind R: real-arithmetic symbolic execution + SMT, in a python3-vt subprocess"""
+    t0 = time.time()
+    res = {'fn': job['fn'], 'variant': '', 'status': 'error', 'detail': '', 'clauses': {}, 'safety': [], 'inputs': {},
+           'seconds': 0, 'solver_s': 0, 'backend': 'z3-nra', 'log': '', 'kind': 'R'}
+    try:
+        jf = os.path.join(job['workdir'], job['id'] + '.rjob.json')
+        json.dump(job, open(jf, 'w'))
+        rc, so, se, dt = sh(['python3-vt', os.path.join(VERIF, 'tools', 'll2smt.py'), jf], timeout=job['timeout'] * (len(job['ensures']) + 3) + 60, mem_gb=8)
+        res['log'] = '$ python3-vt tools/ll2smt.py %s rc=%d %.1fs\n' % (jf, rc, dt)
+        if rc == -999:
+            res['status'] = 'timeout'
+            res['detail'] = 'll2smt timeout'
+        else:
+            try:
+                r = json.loads(so)
+            except Exception:
+                res['detail'] = 'll2smt produced no JSON: ' + (so[-300:] + se[-700:])
+                r = None
+            if r is not None:
+                if r['status'] != 'done':
+                    res['detail'] = r['detail']
+                else:
+                    res['status'] = 'done'
+                    engines = set()
+                    for name, c in r['clauses'].items():
+                        if name.startswith('safety:'):
+                            res['safety'].append((name, name[7:], c['status']))
+                        else:
+                            res['clauses'][name] = c['status']
+                        engines.add(c['engine'])
+                        res['solver_s'] += c['seconds']
+                    res['backend'] = ','.join(sorted(e for e in engines if e))
+                    res['inputs'] = r['inputs']
+                    for k in list(res['inputs'].keys()):
+                        if k.startswith('safety:'):
+                            res['inputs'][k] = res['inputs'][k]
+                    res['translate'] = {'trusted': ['uninterpreted real function + ground axioms: ' + u for u in r['ufs']] +
+                                        ['machine arithmetic treated as mathematical (reals)'], 'libm': []}
+                    unk = [n for n, c in r['clauses'].items() if c['status'] == 'UNKNOWN']
+                    if unk:
+                        res['status'] = 'timeout'
+                        res['detail'] = 'solver returned unknown for: ' + ', '.join(unk)
+                    res['detail'] += r.get('detail', '')
+    except Exception:
+        res['detail'] = 'exception: ' + traceback.format_exc()[-1500:]
+    res['seconds'] = time.time() - t0
+    return res
+
+
 def _job_worker(job):
     """translate in the worker (forked: G_BUILDS inherited), then run CBMC"""
+    if job.get('kind') == 'R':
+        return _r_worker(job)
     try:
         b = G_BUILDS[job['build']]
         roots = [job['fn_ir']] + job['uses_ir']
@@ -129,6 +181,12 @@ class Prop:
                         ens.append((name + '__pinned', '!(%s) || (%s)' % (f.S, f.pinned)))
                 else:
                     ens.append((name, e))
+            jid0 = re.sub(r'[^A-Za-z0-9_]', '_', c.fn)[:80] + '_' + hashlib.md5(c.fn.encode()).hexdigest()[:6]
+            if c.kind == 'R':
+                jobs.append({'kind': 'R', 'id': jid0, 'fn': c.fn, 'll': b.ll, 'sig': sig, 'requires': c.requires, 'ensures': ens,
+                             'timeout': c.timeout, 'timeout_s': c.timeout, 'workdir': wd})
+                jobmeta[c.fn] = (c, sig, ens, fnd)
+                continue
             text, lines = harness_text(c, sig, '@@GEN@@', ensures_override=ens)
             jid = re.sub(r'[^A-Za-z0-9_]', '_', c.fn)[:80] + '_' + hashlib.md5(c.fn.encode()).hexdigest()[:6]
             uses_ir = []
@@ -261,6 +319,8 @@ class Prop:
         b = self.builds[c.build]
         if c.fn not in b.driver.shims:
             return {'ok': False, 'error': 'not a shim-level contract'}
+        if c.kind == 'R':
+            return run_replay_R(b, b.driver.shims[c.fn], c, inputs, wd, re.sub(r'\W', '_', c.fn + '_' + tag))
         return run_replay(b, b.driver.shims[c.fn], c, inputs, wd, re.sub(r'\W', '_', c.fn + '_' + tag), sanitize=(c.kind == 'U'))
 
     def make_violation(self, c, sig, clause_key, clause_name, r, wd, why):
